@@ -61,7 +61,8 @@ PROPS = {
     'C19': dict(
         title='Kinds, typed accessors and grid construction are coherent',
         verus=[('u_kinds', [r'^Value::is_', r'^Value::has_value$', r'^kind_from_value$', r'^try_from_value_for_', r'^lemma_exactly_one_kind$',
-                            r'^check_exactly_one_predicate$'])],
+                            r'^check_exactly_one_predicate$']),
+               ('u_getters', [r'^Dict::get_', r'^Dict::has_'])],
         kani=[dict(harness='k_kind_u8', klass='complete', schema=['u8'], family='kind-u8', target='HaystackKind::try_from(u8)'),
               dict(harness='k_kind_code_roundtrip', klass='complete', schema=['u8'], family='kind-u8', target='HaystackKind as u8'),
               dict(harness='k_kind_name_roundtrip', klass='complete', schema=['u8'], family='kind-name', target='HaystackKind <-> &str'),
@@ -71,9 +72,9 @@ PROPS = {
         design_ref='DESIGN.md section 4, C19',
         level_text=('Proof: Verus for all values (each of the 18 kind predicates equals kind_of(v) == K, exactly one is true, '
                     'From<&Value> for HaystackKind equals kind_of, each of the 20 TryFrom<&Value> conversions succeeds exactly for the '
-                    'matching kind and returns the stored payload); Kani complete over all 256 codes and all 18 kinds for the '
+                    'matching kind and returns the stored payload; each of the 14 typed Dict getters and 3 has_* tests succeeds exactly when the key is bound to a value of that kind and returns that payload); Kani complete over all 256 codes and all 18 kinds for the '
                     'code and name tables.'),
-        not_decided=('Grid::make_from_dicts (HashSet, nested closures, sort_by: outside both tools); typed Dict getters (BTreeMap); '
+        not_decided=('Grid::make_from_dicts (HashSet, nested closures, sort_by: outside both tools); BTreeMap lookup itself (Dict::get is modelled by an uninterpreted function); '
                      'Display for HaystackKind agreeing with the name table (core::fmt).'),
         technique='contract-based deductive verification: Verus on extracted real bodies + Kani complete finite-domain harnesses',
     ),
@@ -99,7 +100,7 @@ PROPS = {
     ),
     'C02': dict(
         title='Hayson encode -> decode returns the original value',
-        verus=[],
+        verus=[('u_getters', [r'^parse_ref$', r'^parse_symbol$', r'^parse_uri$', r'^parse_coord$'])],
         kani=[dict(harness='k_json_visit_numbers', klass='complete', schema=None, family=None, target='JsonValueDecoderVisitor::visit_{i8..u64,f64}'),
               dict(harness='k_json_visit_bool_null', klass='complete', schema=['bool'], family=None, target='JsonValueDecoderVisitor::visit_bool/visit_unit'),
               dict(harness='k_json_number_exact', klass='complete', schema=['f64'], family='json-number', target='<Number as Serialize>::serialize'),
@@ -118,7 +119,7 @@ PROPS = {
     ),
     'C05': dict(
         title='Hayson JSON conforms to the Project Haystack JSON encoding',
-        verus=[],
+        verus=[('u_getters', [r'^parse_ref$', r'^parse_symbol$', r'^parse_uri$', r'^parse_coord$', r'^Dict::get_str$', r'^Dict::get_num$'])],
         kani=[dict(harness='k_json_visit_numbers', klass='complete', schema=None, family=None, target='JsonValueDecoderVisitor::visit_{i8..u64,f64}'),
               dict(harness='k_json_visit_bool_null', klass='complete', schema=['bool'], family=None, target='JsonValueDecoderVisitor::visit_bool/visit_unit'),
               dict(harness='k_json_scalar_traces', klass='complete', schema=['u8', 'f64', 'f64'], family=None, target='Serialize for Marker/Na/Remove/Coord/Symbol/Uri/Ref/XStr'),
@@ -128,8 +129,10 @@ PROPS = {
         design_ref='DESIGN.md section 4, C05',
         level_text=('Proof (Kani/CBMC) of the writer side for scalars: the serializer call trace of Marker, NA, Remove, Coord (all f64), '
                     'Symbol, Uri, Ref (with and without dis), XStr and Number (all f64, with and without unit) uses exactly the "_kind" '
-                    'values and member names of the Hayson table (typed into the harness from the specification), in a map of the stated size.'),
-        not_decided=('Reader side: member-order independence and optional members of visit_map (generic over serde::de::MapAccess); '
+                    'values and member names of the Hayson table (typed into the harness from the specification), in a map of the stated size. '
+                    'Reader side (Verus, real bodies): parse_ref / parse_symbol / parse_uri / parse_coord succeed exactly when the members the '
+                    'table requires (val; lat and lng) are present with the right kind, and build the value from exactly those members (dis optional).'),
+        not_decided=('Reader side: member-order independence of visit_map (generic over serde::de::MapAccess); parse_xstr (this Verus crashes on a local named r#type), parse_number (closures capturing the dict), parse_date/time/datetime (chrono), parse_grid (iterator adapters); '
                      'list/dict/grid layout; Date/Time/DateTime text; JSON number spellings (serde_json); payload strings are concrete '
                      '2-byte strings (the trace shape does not depend on them).'),
         technique='contract-based deductive verification: Kani harnesses on the real Serialize impls with a recording Serializer',
